@@ -42,6 +42,13 @@ ASSUMPTIONS = [
     'the extracted model keeps nat in unary representation: the re-use machine and the bins checker are evaluated for data sets of up to 100 '
     'samples and grids of up to 520 points; larger cases are compared with the model right-hand side the machine is proved to equal',
     'GlobalTrapezoidalGrid(boundary=True) is compared reuse on/off only (the model covers grids without boundary points)',
+    'argument protocol of the single-object histories: every argument object is snapshotted at hand-over and compared after every step '
+    '(argument-mutated); data / label / evaluation-point objects are shared between the objects and calls of a case (C, Fortran, strided view); '
+    'lists handed to a call are overwritten by the harness after the call, returned arrays are overwritten with the sentinel 12345.678 and the '
+    'caches old_B/new_B/surpluses/old_R are scanned for it (result-aliases-internal-state); get_result() hands out the surplus dictionary '
+    'itself by design and is not overwritten',
+    'the pure public getters called between the steps must leave a fingerprint of the operation state (old_B, new_B, surpluses, old_R size, '
+    'data bins, lambda, grid size) unchanged (observer-changed-state); a second post_processing legitimately empties old_B',
 ]
 
 REL = 1e-12
@@ -81,7 +88,10 @@ def gen_history(rng, quick):
                 break
         grids.append(sl)
         base = sl
-    return dict(kind='rcache-history', dim=dim, grids=grids, lam=rng.choice([0.0, 0.125, 0.01]))
+    c = dict(kind='rcache-history', dim=dim, grids=grids, lam=rng.choice([0.0, 0.125, 0.01]), sentinel=rng.random() < 0.4)
+    if rng.random() < 0.4:
+        c['lams'] = [c['lam']] + [rng.choice([0.0, 0.5, 2.0 ** -20, 64.0, 0.01]) for _ in grids[1:]]
+    return c
 
 
 def _lev(i, n, L):
@@ -256,11 +266,18 @@ def impl_history(case):
     for reuse in (False, True):
         op = _op(case, reuse, lam=case['lam'])
         Rs = []
-        for st in case['grids']:
+        for n, st in enumerate(case['grids']):
             stripes = [list(s) for s in st]
             levels = [[0] * len(s) for s in st]
+            if case.get('lams'):
+                op.lambd = case['lams'][n]       # the regularisation parameter changes between the grids of one object
             op.grid.set_grid(stripes, levels)
-            Rs.append(_de.tolist(op.build_R_matrix_dimension_wise(stripes, levels)))
+            R = op.build_R_matrix_dimension_wise(stripes, levels)
+            Rs.append(_de.tolist(R))
+            if case.get('sentinel'):
+                R[...] = X.SENTINEL              # the caller writes into the returned matrix
+                if any(v == X.SENTINEL for v in op.old_R.values()):
+                    out['aliased'] = dict(step=n, where=['old_R'])
         out['on' if reuse else 'off'] = Rs
         if reuse:
             cache = []
@@ -410,6 +427,8 @@ def process(chk, cases, verbose=False):
         k = c['kind']
         if k == 'rcache-history':
             m17.append((0, [sx.rat(c['lam']), [fr(g) for g in c['grids']]])); i17.append(i)
+            for n, l_ in enumerate(c.get('lams') or []):
+                m17.append((0, [sx.rat(l_), [fr(c['grids'][n])]])); i17.append((i, ('lam-step', n)))
         elif k == 'b-reuse':
             signs = c['classes'] if c['classes'] is not None else []
             m16.append((10, [fr(c['grids'][1]), fr(c['data']), signs])); i16.append((i, 'b2'))
@@ -450,6 +469,9 @@ def process(chk, cases, verbose=False):
             chk.extra.setdefault('impl_seconds_by_kind', {})
             kk = k + ('/' + c['shape'] if k == 'adaptive-steps' else '')
             chk.extra['impl_seconds_by_kind'][kk] = round(chk.extra['impl_seconds_by_kind'].get(kk, 0.0) + r['_seconds'], 1)
+            chk.extra['slowest_cases'] = sorted(chk.extra.get('slowest_cases', []) + [
+                [round(r['_seconds'], 1), kk, str({f: c.get(f) for f in ('estimator', 'second_run', 'size', 'dim', 'lmax', 'max_evaluations')
+                                                    if c.get(f) is not None})[:120]]], reverse=True)[:6]
         if st != 'ok':
             chk.violation('corr:C17/' + k, 'impl-exception', dict(path=k, exc=r[0] if r else st), c, dict(impl=str(r)))
             continue
@@ -461,9 +483,17 @@ def process(chk, cases, verbose=False):
                 chk.violation('corr:C17/model', 'model-rejects', {}, c, str(m)[:300], failing_input=False)
                 continue
             Mc = [qmat(x) for x in m[0]]; Mp = [qmat(x) for x in m[1]]
+            if 'aliased' in r:
+                chk.violation('oracle:results_not_aliased', 'result-aliases-internal-state', dict(path=k, what='old_R'), c, r['aliased'])
+                continue
+            if c.get('sentinel'):
+                chk.count('rcache-history-sentinel')
             if Mc != Mp:
                 chk.violation('theorem:C17_cache_transparent_for_every_history', 'model-cache-not-transparent', {}, c,
                               'extracted model: cached and plain matrices differ', failing_input=False)
+            if c.get('lams'):
+                chk.count('rcache-history-lambda-changes')
+                Mp = [qmat(r17[(i, ('lam-step', n))][1][0]) for n in range(len(c['grids']))]
             for step, (Ron, Roff, Rm) in enumerate(zip(r['on'], r['off'], Mp)):
                 tolm = 1e-12 + 64 * _de.EPS * _de.cancellation_amp(c['grids'][step]) + (1e-7 if c.get('numeric') else 0)
                 ab = 1e-9 if c.get('numeric') else 1e-15
@@ -615,6 +645,22 @@ def process(chk, cases, verbose=False):
                     chk.count('op-history-labelled')
                     if set(c['classes']) - {-1, 1}:
                         chk.count('op-history-labels-not-pm1')
+                ar_ = c.get('args') or {}
+                for fl in ('share', 'scribble', 'sentinel'):
+                    if ar_.get(fl):
+                        chk.count('op-history-args-' + fl)
+                chk.count('op-history-args-layout=' + ar_.get('layout', 'C'))
+                chk.count('op-history-args-points=' + ar_.get('points_as', 'tuples'))
+                for fl in ('observers', 'fine'):
+                    if c.get(fl):
+                        chk.count('op-history-' + fl)
+                chk.count('op-history-surplus-scale=2^%d' % c.get('ascale', 0))
+                chk.count('op-history-lambda-changes', sum(1 for st_ in c['steps'] if st_.get('lam') is not None))
+                chk.count('op-history-post_processing-twice', sum(1 for st_ in c['steps'] if st_.get('post_again') and c.get('observers')))
+                if any(max(max(l_) for l_ in g_['levels']) > 4 for st_ in c['steps'] for g_ in st_['grids']):
+                    chk.count('op-history-level-values>4')
+                if len(set(map(tuple, c['data']))) < len(c['data']):
+                    chk.count('op-history-repeated-samples')
                 chk.count('op-history-M=%s' % (len(c['data']) if len(c['data']) in (1, 3) else ('<=60' if len(c['data']) <= 60 else '>60')))
                 if len(c['points']) > 64:
                     chk.count('op-history-points>64')
@@ -634,9 +680,15 @@ def process(chk, cases, verbose=False):
                 ok = X.check_steps(chk, c, r, mm)
                 chk.count('steps-shape=' + c['shape'])
                 chk.count('steps-estimator=' + (c['estimator'] if isinstance(c['estimator'], str) else 'scripted'))
-                for fl in ('boundary', 'debug', 'ml', 'second_run', 'rebalancing'):
+                for fl in ('boundary', 'debug', 'ml', 'second_run', 'rebalancing', 'observers'):
                     if c.get(fl):
                         chk.count('steps-' + fl)
+                ar_ = c.get('args') or {}
+                for fl in ('share', 'sentinel'):
+                    if ar_.get(fl):
+                        chk.count('steps-args-' + fl)
+                chk.count('steps-args-layout=' + ar_.get('layout', 'C'))
+                chk.count('steps-args-points=' + ar_.get('points_as', 'tuples'))
                 if c['classes'] is not None:
                     chk.count('steps-labelled')
                 if r['on']['status'] == 'ok':
@@ -694,24 +746,28 @@ def run(chk):
     q = chk.quick
     cases = list(CORPUS)
     cases += [gen_history(rng, q) for _ in range(chk.n(60, 800))]
-    cases += [gen_history_numeric(rng) for _ in range(chk.n(3, 12))]
+    cases += [gen_history_numeric(rng) for _ in range(chk.n(2, 12))]
     cases += [gen_breuse(rng) for _ in range(chk.n(8, 80))]
     cases += [gen_breplace(rng) for _ in range(chk.n(10, 100))]
-    cases += [gen_adaptive_rebalance(rng) for _ in range(chk.n(6, 30))]
-    cases += [gen_adaptive(rng, q) for _ in range(chk.n(24, 300))]
+    cases += [gen_adaptive_rebalance(rng) for _ in range(chk.n(4, 30))]
+    cases += [gen_adaptive(rng, q) for _ in range(chk.n(16, 300))]
     if not q:
         cases += [gen_adaptive(rng, q, big=True) for _ in range(12)]
     for uniform in (True, False):
         for above in (True, False):
             cases += [gen_threshold(rng, uniform, above) for _ in range(chk.n(4, 40))]
     # wave 2: histories on one operation object (long cases first: better packing on the worker pool)
-    cases = cases[:len(CORPUS)] + [X.gen_steps(rng, 'large') for _ in range(chk.n(14, 60))] + cases[len(CORPUS):]
-    cases += [X.gen_steps(rng, 'cheap') for _ in range(chk.n(18, 150))]
+    large = [X.gen_steps(rng, 'large', shape='2d-45')] + [X.gen_steps(rng, 'large', shape=rng.choice(['2d-44', '2d-44', '1d-88', '1d-88', '2d-34']))
+                                                            for _ in range(chk.n(9, 56))]
+    if not q:
+        large += [X.gen_steps(rng, 'large', shape='2d-45') for _ in range(3)]
+    large += [X.gen_steps(rng, 'cheap') for _ in range(chk.n(18, 150))]
+    cases = cases[:len(CORPUS)] + large + cases[len(CORPUS):]
     cases += [X.gen_ophist(rng) for _ in range(chk.n(70, 600))]
     # sizes beyond typical block sizes: many samples, many evaluation points, grids with more than 1024 points
     cases += [X.gen_ophist(rng, size='above', M=257), X.gen_ophist(rng, size='edge200', M=1025),
               X.gen_ophist(rng, size='big', npoints=1030), X.gen_ophist(rng, size='small', M=100, npoints=260),
-              X.gen_ophist(rng, size='huge'), X.gen_ophist(rng, size='huge', M=65)]
+              X.gen_ophist(rng, size='huge'), X.gen_ophist(rng, size='huge', M=65), X.gen_ophist(rng, size='above', M=2049)]
     cases += [X.gen_std(rng) for _ in range(chk.n(4, 30))]
     process(chk, cases)
 
